@@ -26,7 +26,11 @@ def run(ctx):
   rule_feed(ctx)
   rule_bytes(ctx)
   rule_pair(ctx)
-  ctx.expect("R-C09-PAIR", 1, "BiasedBaseCheck")
+  # the pairs (a, b) of an issuer are derived from that issuer's own signatures: the index map and the list it indexes are the same per-curve sub-batch
+  # (shared with C08: a pair taken from another signature satisfies k = a + b*d for no nonce of this issuer)
+  from . import c08
+  ctx.borrow(c08.rule_group, "R-C09-PAIR", lambda r: "BiasedBaseCheck" in r.where)
+  ctx.expect("R-C09-PAIR", 3, "BiasedBaseCheck: pairs + partition + per-issuer grouping")
   # the identity is stated modulo self.n: it is the nonce relation only if n is the (prime) order of the generator on every curve (shared with C11)
   from . import c11
   ctx.borrow(c11.rule_curves, "R-C09-HNP")
